@@ -1,6 +1,8 @@
 package cache
 
 import (
+	"time"
+
 	"github.com/miekg/dns"
 	internalcache "github.com/semihalev/sdns/internal/cache"
 )
@@ -44,6 +46,35 @@ type denialWitnessPair struct {
 	hash     uint64
 	zone     string
 	snapshot *denialProofZoneSnapshot
+	// until is the earliest expiry among the records the snapshot held when
+	// the rung missed. Passive expiry never replaces a snapshot, yet the Msg
+	// evaluator filters expired records per query: a miss forced by a record
+	// that has since expired (an overlapping or otherwise conflicting NSEC)
+	// can turn into a hit under the very same pointer. Past this instant the
+	// witness proves nothing and the query takes the Msg path, whose lookup
+	// prunes and republishes the zone.
+	until time.Time
+}
+
+// denialSnapshotEarliestExpiry is the first instant at which the set of live
+// records in snapshot differs from the set the snapshot was published with.
+func denialSnapshotEarliestExpiry(snapshot *denialProofZoneSnapshot) time.Time {
+	var earliest time.Time
+	consider := func(entry *denialProofEntry) {
+		if entry != nil && (earliest.IsZero() || entry.expires.Before(earliest)) {
+			earliest = entry.expires
+		}
+	}
+	consider(snapshot.soa)
+	for _, entry := range snapshot.nsec {
+		consider(entry)
+	}
+	for _, group := range snapshot.nsec3 {
+		for _, entry := range group {
+			consider(entry)
+		}
+	}
+	return earliest
 }
 
 // missWitness captures the denial zones on qname's ancestor path the
@@ -78,6 +109,7 @@ func (c *denialProofCache) missWitness(qname string, qclass uint16) []denialWitn
 				hash:     denialZoneHash(zone, qclass),
 				zone:     zone,
 				snapshot: snapshot,
+				until:    denialSnapshotEarliestExpiry(snapshot),
 			})
 		}
 	}
@@ -99,6 +131,7 @@ func (c *denialProofCache) missWitnessHoldsWire(
 		return true
 	}
 	holds := true
+	now := c.now()
 	c.mu.RLock()
 	if c.stopped {
 		c.mu.RUnlock()
@@ -117,6 +150,7 @@ func (c *denialProofCache) missWitnessHoldsWire(
 			}
 			for _, w := range witness {
 				if w.hash == hash^denialZoneHashSalt && w.snapshot == snapshot &&
+					(w.until.IsZero() || now.Before(w.until)) &&
 					internalcache.WireNameEqualsPresentation(zone, w.zone) {
 					return true
 				}
